@@ -193,6 +193,13 @@ func encPolicyMsg(en *env.Enc, e *env.Env, msg sdk.Msg) bool {
 		encField(en, m.BlockRate)
 		encField(en, m.RunningRate)
 		en.B(m.EndPolicy)
+		// the block rate of the stored (possibly scheduled) policy: see MsgUpdatePmtpParams above
+		sp := e.App.ClpKeeper.GetPmtpParams(e.Ctx())
+		if br := pmtpBlockRateOracle(sp.PmtpPeriodGovernanceRate, sp.PmtpPeriodEpochLength, sp.PmtpPeriodStartBlock, sp.PmtpPeriodEndBlock); br != nil {
+			en.I(1).Z(br)
+		} else {
+			en.I(0)
+		}
 	case *clptypes.MsgUpdateLiquidityProtectionParams:
 		en.I(4).Z(bi(m.MaxRowanLiquidityThreshold)).U(m.EpochLength).B(m.IsActive)
 	case *clptypes.MsgModifyLiquidityProtectionRates:
@@ -390,6 +397,10 @@ func buildPolicyMsg(e *env.Env, rng *chain.Rng, kind int) (string, sdk.Msg, map[
 		m := &clptypes.MsgUpdatePmtpParams{Signer: adm, PmtpPeriodGovernanceRate: "-0.5", PmtpPeriodEpochLength: 1, PmtpPeriodStartBlock: h + 1, PmtpPeriodEndBlock: h + 1}
 		f["gov_rate"], f["epoch_length"], f["start"], f["end"] = m.PmtpPeriodGovernanceRate, m.PmtpPeriodEpochLength, m.PmtpPeriodStartBlock, m.PmtpPeriodEndBlock
 		return "MsgUpdatePmtpParams", m, f
+	case 106: // corpus, finding F-30: the running rate set to -0.5 while a policy of rate -0.5 is scheduled
+		m := &clptypes.MsgModifyPmtpRates{Signer: adm, RunningRate: "-0.5"}
+		f["running_rate"] = m.RunningRate
+		return "MsgModifyPmtpRates", m, f
 	case 0: // reward period
 		p := &clptypes.RewardPeriod{RewardPeriodId: "rp1"}
 		if rng.Intn(2) == 0 {
@@ -571,7 +582,7 @@ func C10(c Ctx) *report.Report {
 		coins := sdk.NewCoins(sdk.NewCoin("ceth", sdk.NewIntFromBigInt(chain.E(20))))
 		e.Tx(e.Users[2], clptypes.NewMsgAddLiquidityToRewardsBucketRequest(e.Users[2].Addr.String(), coins))
 		kind := rng.Intn(8)
-		if i < 6 {
+		if i < 7 {
 			kind = 100 + i // corpus first: the recorded findings F-15, F-16, F-7 and F-25; a rate that makes every position's health overflow
 		}
 		cs := c10Case{ID: id}
@@ -650,6 +661,22 @@ func C10(c Ctx) *report.Report {
 			}
 			cs.Second = fmt.Sprintf("rewards are re-invested at the end of every hour epoch (25-minute blocks); a first ratio-shifting policy of rate -0.5 over block %d alone has run: running rate %s; a user adds 1e20 ceth to the rewards bucket in every block",
 				e.Height-1, e.App.ClpKeeper.GetPmtpRateParams(e.Ctx()).PmtpCurrentRunningRate)
+			c10MoreTraffic = func(e *env.Env) {
+				e.Tx(e.Users[2], clptypes.NewMsgAddLiquidityToRewardsBucketRequest(e.Users[2].Addr.String(), coins))
+			}
+		}
+		if kind == 106 {
+			// corpus, finding F-30: a policy of rate -0.5 is scheduled (it starts two blocks from now); the message below sets the
+			// running rate - the rate that policy will start from - to -0.5. Rewards re-invested every hour, bucket refilled.
+			e.BlockStep = 25 * time.Minute
+			mustOK(e.UpdateRewardsParams(0, 0, 0, "hour", false), "rewards re-invested every hour")
+			m := &clptypes.MsgUpdatePmtpParams{Signer: e.Admin.Addr.String(), PmtpPeriodGovernanceRate: "-0.5", PmtpPeriodEpochLength: 1, PmtpPeriodStartBlock: e.Height + 3, PmtpPeriodEndBlock: e.Height + 3}
+			mustOK(e.Tx(e.Admin, m), "scheduled policy")
+			if d, p, w := runBlocks(e, rng, 1, nil, rep, nil); p != "" {
+				rep.Violate("C10/hook-panic/setup", p, map[string]interface{}{"where": w, "blocks": d})
+			}
+			cs.Second = fmt.Sprintf("rewards are re-invested at the end of every hour epoch (25-minute blocks); a ratio-shifting policy of rate -0.5 over block %d alone is scheduled (current height %d); a user adds 1e20 ceth to the rewards bucket in every block",
+				m.PmtpPeriodStartBlock, e.Height)
 			c10MoreTraffic = func(e *env.Env) {
 				e.Tx(e.Users[2], clptypes.NewMsgAddLiquidityToRewardsBucketRequest(e.Users[2].Addr.String(), coins))
 			}
